@@ -184,6 +184,7 @@ def main(tier):
             c = {"id": "p%d" % i, "units": [p["src"]], "timeout_ms": 30000}
             c.update(opts)
             cases.append(c)
+        cases_by_id = {c["id"]: c for c in cases}
         results, meta = core.run_cases(cases, env=env, tag="c08")
         for e in meta["harness_errors"]:
             rep.inconclusive_note("harness: %s" % e)
@@ -198,6 +199,11 @@ def main(tier):
             if (res.get("counters") or {}).get("FREED_SLOT_ACCESS"):
                 rep.violation("C08 %s: access to a freed heap slot" % tname.split("/")[0], "config=%s events=%s\n%s" % (
                     cname, json.dumps(res.get("events"))[:400], p["src"]), replay)
+            if res["status"] == "timeout":
+                again = core.retry_alone(cases_by_id["p" + str(i)], env=env, tag="c08r")
+                if again is not None and again["status"] == "ok":
+                    rep.inconclusive_note("a time-out in the loaded batch was not reproduced alone (" + cname + ")")
+                    res = again
             if res["status"] != "ok":
                 kind = "does not terminate" if res["status"] == "timeout" else "engine process %s" % res["status"]
                 rep.violation("C08 %s: %s" % (sig_name(tname), kind), "config=%s\n%s" % (cname, p["src"]), replay)
